@@ -40,7 +40,7 @@ func (Engine) Budget(tier, prop string) (int, int) {
 	if tier == "thorough" {
 		return 20000, 800
 	}
-	return 2400, 100
+	return 4000, 120
 }
 func (Engine) Describe() simcore.Description {
 	return simcore.Description{
